@@ -234,12 +234,13 @@ LEADS = ["\n  \n", "  \n", "\t\n\n", "\n\n  \n", " \n// c\n", "\n \t \n\n", "  \
 
 def e2e(rep, tier, seed):
     P = pool.load()
-    MOD = 24
+    MOD = 8
+    NB = len(GRID) // 3            # GRID = 3 newline styles x NB other settings; a selected (program, layout, setting) runs under all three styles
     sel = []
     for p in P:
         for lay in E2E_LAYOUTS:
             for gi, g in enumerate(GRID):
-                if tier == "thorough" or common_hash("%s|%s|%d" % (p["id"], lay, gi)) % MOD == seed % MOD:
+                if tier == "thorough" or common_hash("%s|%s|%d" % (p["id"], lay, gi % NB)) % MOD == seed % MOD:
                     sel.append((p, lay, gi))
     need = {p["id"] for p, lay, _ in sel if lay not in ("orig", "lead")}
     lex_in = [p for p in P if p["id"] in need]
@@ -260,6 +261,22 @@ def e2e(rep, tier, seed):
         meta.append((p["id"], lay, gi))
     res = common.run_vh_pool("pool", cases, per_case_timeout=15)
     found = n = 0
+    # converting the newline style changes nothing but the terminators: the three runs of one (program, layout, setting)
+    by_base = {}
+    for (pid, lay, gi), c, r in zip(meta, cases, res):
+        if pool.accepted(r) and r["out"] != "":
+            by_base.setdefault((pid, lay, gi % NB), {})[GRID[gi][0][1]] = (c, r)
+    for (pid, lay, b), d in by_base.items():
+        if "Unix" in d and "Windows" in d:
+            u, w = d["Unix"][1]["out"], d["Windows"][1]["out"]
+            if "\r" in u:
+                continue          # stray CRs in the text itself (recorded class HasCRCRLF)
+            if w.replace("\r\n", "\n") != u:
+                ul, wl = u.split("\n"), w.replace("\r\n", "\n").split("\n")
+                k = next((i for i, (x, y) in enumerate(zip(ul, wl)) if x != y), min(len(ul), len(wl)))
+                if rep.violation("e2e_style_changes_text:%s" % pid, {"pool_id": pid, "layout": lay, "config_unix": d["Unix"][0]["config"], "input": d["Unix"][0]["text"], "out_unix": u, "out_windows": w},
+                                 "newline_style=Windows and =Unix give texts that differ in more than their terminators for %s (layout %s): line %d %r vs %r" % (pid, lay, k + 1, ul[k] if k < len(ul) else None, wl[k] if k < len(wl) else None)):
+                    found += 1
     for (pid, lay, gi), c, r in zip(meta, cases, res):
         if not pool.accepted(r) or r["out"] == "":
             continue
@@ -271,7 +288,7 @@ def e2e(rep, tier, seed):
                 found += 1
     rep.coverage["e2e_programs_judged"] = n
     found += file_matrix(rep, tier, seed)
-    rep.coverage["e2e_rule"] = "pool x layouts %s x %d configurations (newline_style x blank-line bounds x hard_tabs/tab_spaces); thorough = all, quick = the 1/%d slice selected by the seed; clauses: one final terminator, no leading blank line, terminators follow newline_style, blank-line runs <= upper bound, indentation characters follow hard_tabs outside literals / comments / macro calls / skipped code" % (E2E_LAYOUTS, len(GRID), MOD)
+    rep.coverage["e2e_rule"] = "pool x layouts %s x %d configurations (newline_style x blank-line bounds x hard_tabs/tab_spaces); thorough = all, quick = the 1/%d slice selected by the seed; clauses: the Windows and Unix outputs of one (program, layout, setting) differ in their terminators only, one final terminator, no leading blank line, terminators follow newline_style, blank-line runs <= upper bound, indentation characters follow hard_tabs outside literals / comments / macro calls / skipped code" % (E2E_LAYOUTS, len(GRID), MOD)
     return found
 
 
